@@ -132,6 +132,83 @@ func ruleRegistry(c *Ctx, r *Rep) {
 	if n == 0 {
 		r.Undecided("anchor:getter-setter-pairs", "", "no GetX / PutX pair over a map field found")
 	}
+	// opening the directory fills the registries: below Open every map and list of the backend that its getters and the
+	// issuer walk read has a writer, and none of those writers sits behind a test that the alias is already known
+	open := methods["Open"]
+	if open == nil {
+		return
+	}
+	st, _ := fsdb.Underlying().(*types.Struct)
+	written := map[string]bool{}
+	var onlyKnown []string
+	below := g.Reach(open)
+	// the visit function of a directory walk started below Open runs on Open's behalf, however it is handed over
+	for cb, starter := range c.walkCallbacks() {
+		if _, in := below[starter]; in {
+			for f, how := range g.Reach(cb) {
+				if _, dup := below[f]; !dup {
+					below[f] = how
+				}
+			}
+		}
+	}
+	for f := range below {
+		for _, b := range f.Blocks {
+			for _, ins := range b.Instrs {
+				var field *types.Var
+				switch x := ins.(type) {
+				case *ssa.MapUpdate:
+					field = mapFieldOf(x.Map)
+				case *ssa.Store:
+					if fa, ok := x.Addr.(*ssa.FieldAddr); ok {
+						if n, isN := derefNamed(fa.X.Type()); isN && n == fsdb {
+							field = fieldOfAddr(fa)
+						}
+					}
+				}
+				if field == nil {
+					continue
+				}
+				written[field.Name()] = true
+				for _, gd := range guardsOf(b) {
+					cond, truth := gd.Cond, gd.Truth
+					if u, isNot := cond.(*ssa.UnOp); isNot && u.Op == token.NOT {
+						cond, truth = u.X, !truth
+					}
+					ex, isEx := cond.(*ssa.Extract)
+					if !isEx || ex.Index != 1 || !truth {
+						continue
+					}
+					if lk, isLk := ex.Tuple.(*ssa.Lookup); isLk && lk.CommaOk {
+						if lf := mapFieldOf(lk.X); lf != nil && (lf.Name() == "fsMetadata" || lf.Name() == "configs") {
+							onlyKnown = append(onlyKnown, field.Name()+" at "+c.Pos(ins.Pos()))
+						}
+					}
+				}
+			}
+		}
+	}
+	if st != nil {
+		for i := 0; i < st.NumFields(); i++ {
+			f := st.Field(i)
+			switch f.Type().Underlying().(type) {
+			case *types.Map, *types.Slice:
+				if f.Name() == "profiles" {
+					continue // filled by the walk callback itself; AddProfile pairs with GetProfile above
+				}
+				r.Check(written[f.Name()], "open-fills|"+f.Name(), c.FnPos(open), "opening the directory writes "+f.Name(), sprintf("%v", written[f.Name()]))
+			}
+		}
+	}
+	r.Check(len(onlyKnown) == 0, "new-entities-registered", c.FnPos(open), "no registry is written only for aliases that are already known", strings.Join(uniq(onlyKnown), "; "))
+}
+
+func derefNamed(t types.Type) (*types.Named, bool) {
+	if p, ok := t.Underlying().(*types.Pointer); ok {
+		t = p.Elem()
+	}
+	n, ok := t.(*types.Named)
+	return n, ok
 }
 
 func ruleFieldWritten(c *Ctx, r *Rep) {
